@@ -1,18 +1,36 @@
 """Per-property claims (source of MANIFEST.json; tools/gen_manifest.py renders it)."""
 HOOK_COMMITS = []
 ENGINES = [
-    {"name": "lean-model", "path": "lean/", "serves_properties": ["C16", "C20"],
+    {"name": "lean-model", "path": "lean/", "serves_properties": ["C01", "C11", "C16", "C20"],
      "kind_free_text": "Lean 4 library Dbus (Spec, Model, Proofs, Props) + compiled line-protocol driver dbus-model"},
-    {"name": "tabulator", "path": "gen/", "serves_properties": ["C16", "C20"],
+    {"name": "tabulator", "path": "gen/", "serves_properties": ["C01", "C11", "C16", "C20"],
      "kind_free_text": "C translation units that #include repo sources and print finite tables; rendered to lean/Dbus/Generated"},
-    {"name": "h-lib", "path": "harness/lib/", "serves_properties": ["C16", "C20"],
+    {"name": "h-lib", "path": "harness/lib/", "serves_properties": ["C01", "C11", "C16", "C20"],
      "kind_free_text": "in-process C harnesses linked against the ASan/UBSan build of the working tree"},
 ]
 PENDING = "not implemented yet in this round (planned, see DESIGN.md §4/§7); no check is claimed"
 NOT_APPLICABLE = {p: PENDING for p in
-                  ["C01", "C02", "C03", "C04", "C05", "C06", "C07", "C08", "C09", "C10", "C11", "C12", "C13", "C14", "C15",
+                  ["C02", "C03", "C04", "C05", "C06", "C07", "C08", "C09", "C10", "C12", "C13", "C14", "C15",
                    "C17", "C18", "C19"]}
 CHECKS = {
+    "C01": {
+        "text": "Proved in Lean for all byte strings, both byte orders, unbounded sizes: the value/body decoder (model of validate_body_helper + "
+                "type readers) accepts exactly the encodings of well-formed values (decode_accepts_only_encodings: canonicity — padding zero, "
+                "booleans 0/1, strings valid, array <= 2^26, nesting <= 64; decode_encode: completeness; decodeFields_iff), with the fuel bound "
+                "proved and prefix stability in both directions. Totality is by construction (Lean accepted the definitions). The model is tied to "
+                "dbus_message_demarshal + the public accessor/iterator API by a three-way differential run (independent Python marshaller, C, Lean) over "
+                "valid messages and every single-site corruption, truncation, trailing bytes, field-level corruptions, boundary builders and garbage, "
+                "under ASan/UBSan with assertions. Message-level glue (header field checks, mandatory fields, local names) is modelled and compared; "
+                "its Lean statement as a single iff is in progress.",
+        "note": "F2, F3, F4 were found by this check and repaired in /repo (fix: commits). Limits 2^26/2^27 themselves are theorem + tables, not run.",
+    },
+    "C11": {
+        "text": "Proved in Lean for every stream, every partition into reads and every maximum message size: the loader's observable (messages, "
+                "corrupt flag, index of first invalid message) after feeding the chunks equals that of feeding the concatenation "
+                "(chunking_irrelevant), by way of framing_final (a complete or corrupt front message is framed the same whatever follows, although "
+                "the header is validated against the whole buffer), nothing_after_corruption and messages_monotone. Tied to DBusMessageLoader by "
+                "differential runs over all single cut points, byte-at-a-time, block and random partitions of generated streams.",
+    },
     "C20": {
         "text": "Proved in Lean for every history of register / register-fallback / unregister: the sorted trie with intermediate-node "
                 "creation and leaf pruning refines the specification's registration map (tree_refines_set: well-formedness kept, abstraction "
